@@ -281,17 +281,17 @@ func Run(tier string, seed uint64, rep *evidence.Reporter, deadline time.Time) (
 		samples = samples[:6]
 	}
 	cov = map[string]any{
-		"histories":                       total,
-		"families":                        famInfo,
-		"histories_by_reference_verdict":  classes,
-		"distinct_reference_verdicts":     len(classes),
-		"read_refusals_by_error":          refusals,
-		"distinct_valid_orders":           len(perms),
+		"histories":                      total,
+		"families":                       famInfo,
+		"histories_by_reference_verdict": classes,
+		"distinct_reference_verdicts":    len(classes),
+		"read_refusals_by_error":         refusals,
+		"distinct_valid_orders":          len(perms),
 		"distinct_valid_orders_not_in_commit_index_order": nonIdentity,
-		"counters":                        other,
-		"exhaustive":                      exhaustive,
-		"rule":                            Rule,
-		"samples":                         samples,
+		"counters":   other,
+		"exhaustive": exhaustive,
+		"rule":       Rule,
+		"samples":    samples,
 	}
 	return cov, harnessErr
 }
